@@ -19,7 +19,8 @@ CFG = {
     "C03": {"props": ["C03", "C03Num"], "profiles": [("control", 0.8), ("int", 0.2)],
             "quick": (2000, 480), "thorough": (20000, 3000), "per_func": 3, "sim": {"quick": 240, "thorough": 1600},
             "opt": {"quick": 8, "thorough": 120}, "what": "control flow / operand stack / locals"},
-    "C04": {"props": ["C04", "C04Mangle", "C03Num"], "gens": [("Mangle", "gen_mangle")], "profiles": [("calls", 0.85), ("init", 0.15)],
+    "C04": {"props": ["C04", "C04Mangle", "C04Tables", "C03Num"], "gens": [("Mangle", "gen_mangle"), ("InitTables", "gen_inittables")],
+            "tables_text": {"quick": 150, "thorough": 3000}, "profiles": [("calls", 0.85), ("init", 0.15)],
             "quick": (1500, 400), "thorough": (12000, 3000), "per_func": 4, "sim": {"quick": 300, "thorough": 1600},
             "opt": {"quick": 28, "thorough": 400}, "what": "direct / indirect / recursive / imported calls"},
 }
@@ -184,6 +185,34 @@ def run(tier, PROP="C03"):
             trunc += res.get("truncated_at") is not None
             chk.count_case(("e2e", res["id"]), res.get("ncalls", 0) > 0,
                            ec.sample_of(res) if len(chk.coverage["samples"]) < 8 and res.get("ncalls", 0) > 2 else None)
+        # ---- inittables-text: the body of <module>InitTables of the real w2c2 (plain, -p, -m, -p -m) = Model.InitTables.render over the
+        #      regenerated emitter loops; modules whose text differs are run e2e under the same options (failing-input search)
+        tt = None
+        if cfg.get("tables_text"):
+            import inittables
+            tt = inittables.text_tie(env, corpus + [s for g in gen for s in g[:cfg["tables_text"][tier]]], driver_ok=pr["driver_ok"])
+            chk.coverage["evaluations"] += tt["cases"]
+            if tt["disagreements"]:
+                d0 = dict(tt["disagreements"][0])
+                d0.pop("spec", None)
+                cand, seen = [], set()
+                for x in tt["disagreements"]:
+                    if x.get("spec") is not None and (x["module"], tuple(x["opts"])) not in seen and len(cand) < 8:
+                        seen.add((x["module"], tuple(x["opts"])))
+                        base = {k: v for k, v in x["spec"].items() if k != "rename_exports"}
+                        v = ec.option_variant(base, tuple(x["opts"])) if x["opts"] else base
+                        if v is not None:
+                            cand.append(v)
+                explained = False
+                for res in ec.run_jobs(make_jobs(env, cand, cfg["per_func"])):
+                    if judge(chk, PROP, res, stats):
+                        behav.add(res["id"])
+                        explained = True
+                if not explained:
+                    broken.append({"kind": "correspondence", "name": "inittables-text",
+                                   "msg": "%d case(s): the InitTables text of the real w2c2 differs from Model.InitTables.render; first %r" % (len(tt["disagreements"]), d0)})
+                else:
+                    chk.notes.append({"inittables-text": "%d case(s) differ; explained by the e2e runs under the same options; first %r" % (len(tt["disagreements"]), d0)})
         # ---- sim-semantics: Model/Sim.lean's SOURCE semantics over the instance state (control flow, locals, globals, loads/stores,
         #      memory.size/grow, stateful calls) — what compile_sim/module_sim relate the emitted C to — vs V8 vs the real compiled
         #      output, call by call on ONE threaded instance state, and tgt = src; final globals/pages/memory vs the real instance
@@ -223,11 +252,13 @@ def run(tier, PROP="C03"):
             "e2e_option_variants": {t: sum(1 for r in results if not r.get("error") and (r["spec"].get("opt_tag") or "") == t) for t in ("-p", "-m", "-p-m")},
             "e2e_option_variants_with_tables_compared": sum(1 for r in results if not r.get("error") and r["spec"].get("opt_tag") and
                                                             any((b["real"].get("table") or []) != [] for b in r.get("builds", []))),
+            "inittables_text": ({k: tt[k] for k in ("cases", "modules", "segments", "stores", "no_inittables", "header_not_parsed")} if tt else None),
+            "inittables_text_disagreements": len(tt["disagreements"]) if tt else None,
             "sim_semantics_module_specs": len(sim_specs), "op_histogram": ec.top(ops, 60), "corpus_modules": len(corpus),
             "traces_validated_against_impl": stats["calls_compared"],
         })
-        chk.notes.append("module-level text (header prototypes, InitTables, exports array) is not rendered by the Lean driver yet: "
-                         "that part is tied behaviourally (e2e: table slots vs element segments, call_indirect results, host trace)")
+        chk.notes.append("module-level text other than InitTables (header prototypes, exports array) is not rendered by the Lean driver: "
+                         "that part is tied behaviourally (e2e incl. -p/-m: table slots vs element segments, call_indirect results, host trace)")
     if stats["errors"]:
         chk.notes.append({"tool_errors": stats["errors"][:10]})
         if len(stats["errors"]) > max(3, len(results) // 20):
